@@ -25,7 +25,10 @@ What is mirrored (function by function):
 
 Not modelled: goroutine timing of the asynchronous trigger (`delayFunc` is the identity here:
 the trigger carries its not-before instant), builder registrations, metrics, the
-`FetchAttOnBlock*` feature flags (off by default), uint64 overflow (slots < 2^63).
+uint64 overflow (slots < 2^63). The `FetchAttOnBlock*` feature flags (off by default) only change the
+attester deadline here (`notBefore`); the head-event path they enable (`HandleHeadEvent`,
+`eventTriggeredAttestations`, `waitForEarlyFetchOrTimeout`, `trimEventTriggeredAttestations`) is
+modelled on top of this file in `Model/SchedHead.lean`.
 Time unit: nanoseconds since genesis.
 -/
 namespace CharonV.Sched
@@ -122,7 +125,17 @@ structure Cfg where
   spe     : Nat            -- SLOTS_PER_EPOCH
   slotDur : Nat            -- SECONDS_PER_SLOT in ns
   reorgEnabled : Bool      -- featureset.SSEReorgDuties
+  fetchAttOnBlock : Bool := false            -- featureset.FetchAttOnBlock (alpha, off by default)
+  fetchAttOnBlockWithDelay : Bool := false   -- featureset.FetchAttOnBlockWithDelay (alpha, off by default)
+  fetchOnlyRegistered : Bool := true         -- `RegisterFetcherFetchOnly` was called (core.Wire always does)
   deriving Repr
+
+/-- `featureset.Enabled(FetchAttOnBlock) || featureset.Enabled(FetchAttOnBlockWithDelay)`: the test
+used by `HandleHeadEvent`, the attester trigger goroutine of `scheduleSlot` and `trimDuties`. -/
+def earlyFetchOn (cfg : Cfg) : Bool := cfg.fetchAttOnBlock || cfg.fetchAttOnBlockWithDelay
+
+/-- `300 * time.Millisecond` in ns. -/
+abbrev delay300 : Nat := 300000000
 
 structure State where
   resolvedEpoch : Nat := maxInt64
@@ -154,9 +167,12 @@ def slotOffset (ty dur : Nat) : Option Nat :=
   else if ty = tySyncContribution then some (fraction 2 3 dur)
   else none
 
-/-- `slot.Time.Add(offset)`. -/
+/-- `slot.Time.Add(offset)`: the deadline `delaySlotOffset` hands to `delayFunc`; for the attester
+duty with a `FetchAttOnBlock*` flag on it is the `fallbackDeadline` of `waitForEarlyFetchOrTimeout`
+(same offset, plus 300 ms iff `FetchAttOnBlockWithDelay` is on). -/
 def notBefore (cfg : Cfg) (slot ty : Nat) : Nat :=
-  slot * cfg.slotDur + (slotOffset ty cfg.slotDur).getD 0
+  slot * cfg.slotDur + (slotOffset ty cfg.slotDur).getD 0 +
+    (if ty = tyAttester ∧ cfg.fetchAttOnBlockWithDelay = true then delay300 else 0)
 
 /-! ### map access -/
 
